@@ -129,28 +129,6 @@ theorem interrupted_never_usable (src : Src) (fs : FS) (tape : List Choice) (r :
   · intro hnil
     subst hnil
     -- without a mutating step the machine cannot have written the end marker
-    have : (exec src [] ⟨fs, .entry⟩).fs = fs := by
-      simp only [exec, settle]
-      have key : ∀ c : Cfg, (tau src c).fs = c.fs := by
-        intro c
-        rcases c with ⟨f, pc⟩
-        cases pc <;> simp only [tau]
-        case entry =>
-          by_cases hc : checkSrc src = true
-          · simp only [hc, Bool.not_true, Bool.false_eq_true, if_false]
-            cases f.dst with
-            | none => rfl
-            | some d => simp only; split <;> (try split) <;> rfl
-          · have hc' : checkSrc src = false := by simpa using hc
-            simp [hc']
-        case wipe => cases f.dst with
-          | none => rfl
-          | some d => simp only; split <;> rfl
-        case stageClean => cases f.tmp <;> rfl
-        case copy del => cases f.dst with
-          | none => rfl
-          | some d => simp only; split <;> rfl
-      rw [key, key, key, key]
     rcases ht with ⟨_, _, d', hd', himp⟩ | ⟨hc, _, _, _, _⟩
     · rw [hd] at hd'; cases hd'
       have := himp hs; rw [he] at this; cases this
@@ -239,6 +217,11 @@ theorem result_truthful (src : Src) (fs : FS) (tape : List Choice) (r : Result)
 /-- non-vacuity: a fresh uninterrupted copy of a folder of two zips returns `(true, false, zips)` -/
 example : (attempt ⟨true, false, 3, 2, 4⟩ (List.replicate 12 .any) ⟨none, none⟩).pc = .ret ⟨true, false, some .zips⟩ := by
   decide
+
+/-- **Control transitions only read**: an invocation killed before its first mutating step leaves the file system exactly
+    as it found it (the `exists()` cascade, `listdir`, format detection change nothing). -/
+theorem killed_before_first_step_changes_nothing (src : Src) (fs : FS) : (attempt src [] fs).fs = fs :=
+  settle_fs src ⟨fs, .entry⟩
 
 /-- the executable check the correspondence evaluates on every state observed after a real kill is the invariant -/
 theorem observed_invariant_check (src : Src) (fs : FS) : invAutoB src fs = true ↔ Inv src .auto fs :=
